@@ -41,6 +41,15 @@ def core():
     D.append(Def('look_alt', variants=[
         Var('BlockEnd', [R(r'\}|end(?-u:\b)')]), Var('Unknown', [R('.', prio=0)]), Var('BlockStart', [T('{')]),
         Var('Kw', [R(r'fo+(?-u:\b)|bar')]), Var('F', [T('f')])], tags=('look', 'quick', 'unicode')))
+    D.append(Def('look_uni', variants=[
+        Var('Price', [R('[0-9]+€$', prio=9)]), Var('N', [R('[0-9]+')]), Var('E', [T('€')]), Var('T', [R('aé+$', prio=7)]),
+        Var('A', [R('aé*')])], tags=('look', 'unicode', 'quick')))
+    D.append(Def('prio_multibyte', variants=[
+        Var('Et', [T('é')]), Var('Word', [R('[a-zà-ÿ]+', prio=3)]), Var('Nihon', [T('日本')]), Var('Han', [R('[一-龥]+', prio=5)])],
+        tags=('unicode', 'quick')))
+    D.append(Def('merge_ff', utf8=False, variants=[
+        Var('A', [R(b'(ab|\xFFb)c')]), Var('B', [R(b'(\x00\x00|\xFF\x00)\x01')]), Var('P', [T(b' ')]),
+        Var('Hi', [R(b'([\x80-\xFE]x|\xFFx)y')])], tags=('bytes', 'quick')))
     # --- negated classes folded into "range with exceptions" (non-looping, few edges), byte and str mode
     D.append(Def('neg_bytes', utf8=False, variants=[
         Var('Char', [R(b"'[^']'")]), Var('Quote', [T(b"'")]), Var('Esc', [R(rb'\\[^\n]')]), Var('Bs', [T(b'\\')]),
@@ -148,6 +157,9 @@ def reject_core():
     D.append(Def('rej_nonutf8_dot', variants=[Var('A', [R('(?s-u:.)')])], expect='reject', tags=('nonutf8',)))
     D.append(Def('rej_nonutf8_sub', subs=[('x', b'\xC3')], variants=[Var('A', [R('a(?&x)')])], expect='reject',
                  tags=('nonutf8', 'subpat')))
+    D.append(Def('rej_nonutf8_skip', skips=[R(b'\xC2')], variants=[Var('A', [R('[a-z]+')])], expect='reject', tags=('nonutf8',)))
+    D.append(Def('rej_nonutf8_skip2', skips=[R('(?-u:[\\x80-\\xBF])+')], variants=[Var('A', [R('[a-z]+')])], expect='reject',
+                 tags=('nonutf8',)))
     D.append(Def('rej_undef_sub', variants=[Var('A', [R('a(?&nope)b')])], expect='reject', tags=('subpat',)))
     D.append(Def('rej_greedy_dot', variants=[Var('A', [R('a.*')])], expect='reject', tags=('greedy',)))
     return D
@@ -336,6 +348,9 @@ def literal_family(seed=0, thorough=False):
         Var('A', [R('[a-c]+')]), Var('B', [T('B')])], tags=('lit', 'ic', 'quick')))
     D.append(Def('ic_ascii_fold', variants=[Var('K', [T('kelvin', ignore_case=True)]), Var('S', [T('ss', ignore_case=True)]),
                                             Var('W', [R('[a-j]+')])], tags=('lit', 'ic', 'unicode')))
+    D.append(Def('ic_prio', variants=[Var('L', [T('\u017ft', ignore_case=True)]), Var('W', [R('[a-z\u017f]+', prio=5)]),
+                                      Var('K', [T('\u212a', ignore_case=True)]), Var('C', [R('[kK\u212a]', prio=3)])],
+                 tags=('lit', 'ic', 'unicode', 'quick')))
     D.append(Def('ic_bytes_regex', utf8=False, variants=[
         Var('A', [R(b'(c|\xC3\xBB)+', ignore_case=True)]), Var('B', [R(b'a', ignore_case=True)]), Var('K', [R('k', ignore_case=True)])],
         tags=('lit', 'ic', 'bytes')))
@@ -372,6 +387,9 @@ def subpattern_family():
     D.append(Def('sub_mixed_mode', utf8=False, subs=[('g', r'[α-ω]'), ('any', '.'), ('raw', b'[\x80-\xFF]')], variants=[
         Var('A', [R(b'x(?&g)+')]), Var('B', [R(b'<(?&any)>')]), Var('C', [R('(?-u)\\xFE(?&any)')]), Var('R', [R(b'r(?&raw)')])],
         tags=('subpat', 'bytes', 'quick')))
+    D.append(Def('sub_groups', subs=[('unit', '(?:k|M)(?:b|B)'), ('kw', '(?:let)|(?:var)'), ('g1', '(?:ab)')], variants=[
+        Var('Size', [R('[0-9]+(?&unit)?')]), Var('Kw', [R('(?&kw)!')]), Var('G', [R('x(?&g1)+y')]), Var('Bang', [T('!')])],
+        tags=('subpat', 'quick')))
     D.append(Def('sub_same_a', subs=[('d', '[0-9]'), ('w', '(?&d)+x')], variants=[Var('N', [R('n(?&d)+')]), Var('W', [R('(?&w)')])],
                  tags=('subpat', 'quick')))
     D.append(Def('sub_same_b', subs=[('d', '[a-f]'), ('w', '(?&d)+x')], variants=[Var('N', [R('n(?&d)+')]), Var('W', [R('(?&w)')])],
